@@ -132,7 +132,7 @@ def layout_record(kind, arr):
         bitmap = []
     else:
         raw = np.frombuffer(bufs[0], dtype=np.uint8)
-        bitmap = [int((raw[i // 8] >> (i % 8)) & 1) for i in range(n_slots)]
+        bitmap = [int(v) for v in raw[:(n_slots + 7) // 8]]
     offs = []
     child = data
     for level in range(K):
@@ -164,7 +164,7 @@ def run(tier: str, seed: int) -> int:
     cats = c04.catalogues()
     catname = dict(c04.CATS)
     # D level: Arrow layouts (see MC_ArrowBuf.tla)
-    rb = run_tlc("MC_ArrowBuf", cfg=dict(constants=dict(MaxOff=1 if quick else 2), invariants=["AccessorsExact"]), workers=8, timeout=3000)
+    rb = run_tlc("MC_ArrowBuf", cfg=dict(constants=dict(MaxOff=1 if quick else 2, LongPre={6, 7, 9, 15}), invariants=["AccessorsExact"]), workers=8, timeout=3000)
     chk.add_tlc(rb)
     if rb.violated:
         chk.notes["arrowbuf_counterexample"] = rb.out[rb.out.index("Error:"):][:1500]
@@ -198,7 +198,11 @@ def run(tier: str, seed: int) -> int:
                 if backing == 0:
                     src_arr = geom.make_array(kind, src_elems, geom.IDENT, subtype)
                 elif backing == 1:
-                    src_arr = geom.make_array(kind, pad[:2] + src_elems + pad[2:], geom.IDENT, subtype)[2:2 + len(src_elems)]
+                    # cut out of a larger buffer; the number of foreign elements before the window varies so that the window
+                    # also straddles byte boundaries of the validity bitmap
+                    k = [2, 6, 7, 13][(h // 12) % 4]
+                    before = [(pad + [geom.NULL])[i % 4] for i in range(k)]
+                    src_arr = geom.make_array(kind, before + src_elems + pad[:2], geom.IDENT, subtype)[k:k + len(src_elems)]
                 else:
                     big = geom.make_array(kind, pad[:1] + src_elems, geom.IDENT, subtype)
                     src_arr = type(big)._concat_same_type([big[1:1], big[1:]])
